@@ -320,12 +320,25 @@ func checkC05(r *Result) {
 			return rel.Op == "call:(github.com/cosmos/cosmos-sdk/x/staking/types.Validator).IsBonded", true
 		}}, {Name: "unbonding", Cond: func(rel *Term) (bool, bool) {
 			return rel.Op == "call:(github.com/cosmos/cosmos-sdk/x/staking/types.Validator).IsUnbonding", true
+		}}, {Name: "unbonded", Cond: func(rel *Term) (bool, bool) {
+			return rel.Op == "call:(github.com/cosmos/cosmos-sdk/x/staking/types.Validator).IsUnbonded", true
 		}}})
+		// x/staking keeps the tokens of every validator that is not bonded -- unbonding or unbonded -- in the not-bonded pool; a
+		// delegation can outlive its validator's unbonding, so no status may make the move fail
+		for _, ret := range allReturns(mv) {
+			if !DefinitelyFails(ret) {
+				continue
+			}
+			bad := ps.Require(ret, func(v map[string]bool) bool { return !v["bonded"] && !v["unbonding"] && !v["unbonded"] })
+			okExh := len(bad) == 0 && len(ps.Matched["bonded"]) > 0 && len(ps.Matched["unbonding"]) > 0 && len(ps.Matched["unbonded"]) > 0
+			r.check(okExh, "PAIR-UNBOND", "(x/reporter/keeper.Keeper).MoveTokensFromValidator # fails for no bond status (bonded, unbonding and unbonded are all served)", P.Pos(ret.Pos()),
+				fmt.Sprintf("failing return under %v ; statuses tested: bonded %v unbonding %v unbonded %v", bad, len(ps.Matched["bonded"]) > 0, len(ps.Matched["unbonding"]) > 0, len(ps.Matched["unbonded"]) > 0))
+		}
 		for _, cs := range P.CallSitesIn(mv) {
 			if cs.Callee == "(x/reporter/keeper.Keeper).tokensToDispute" {
 				pool := Arg(cs.Instr, 1)
 				okPool := false
-				if ph, ok := pool.(*ssa.Phi); ok && len(ph.Edges) == 2 {
+				if ph, ok := pool.(*ssa.Phi); ok && len(ph.Edges) >= 2 {
 					// edge from the bonded branch carries bonded_tokens_pool, the unbonding branch not_bonded_tokens_pool
 					m := map[string]bool{}
 					for _, e := range ph.Edges {
@@ -339,13 +352,13 @@ func checkC05(r *Result) {
 							if want == "const:bonded_tokens_pool" && int8(s[0]) != T {
 								okPool = false
 							}
-							if want == "const:not_bonded_tokens_pool" && (int8(s[0]) == T || int8(s[1]) != T) {
+							if want == "const:not_bonded_tokens_pool" && int8(s[0]) != F { // every validator that is not bonded
 								okPool = false
 							}
 						}
 					}
 				}
-				r.check(okPool, "PAIR-UNBOND", "(x/reporter/keeper.Keeper).MoveTokensFromValidator # bonded validator -> bonded pool, unbonding validator -> not-bonded pool", P.Pos(cs.Pos()), "pool argument: "+clip(tm.Of(pool).String(), 120))
+				r.check(okPool, "PAIR-UNBOND", "(x/reporter/keeper.Keeper).MoveTokensFromValidator # bonded validator -> bonded pool, unbonding or unbonded validator -> not-bonded pool", P.Pos(cs.Pos()), "pool argument: "+clip(tm.Of(pool).String(), 120))
 				a := tm.Of(Arg(cs.Instr, 2))
 				r.check(a.Op == "param:3:cosmossdk.io/math.Int", "PAIR-UNBOND", "(x/reporter/keeper.Keeper).MoveTokensFromValidator # moves the amount it was given", P.Pos(cs.Pos()), a.Brief())
 			}
